@@ -74,6 +74,71 @@ Fixpoint c04_run (st : list (N * c04_node)) (trace : list (qop * qres)) : bool :
 (* the property on a trace of (operation, result) pairs *)
 Definition c04_holds (trace : list (qop * qres)) : bool := c04_run [] trace.
 
+(* ---- the cluster-wide clause (known finding C04-K1) ----------------------------------------------------------
+
+   "Once a channel is installed under a newer authority, appends proposed under the older authority are
+   rejected and never acknowledged" read across nodes: a Receipt under authority A returned after a
+   SUCCESSFUL Install of a strictly newer authority B on ANOTHER node is a violation.  (The same node is
+   the owner-local clause above.)  A Receipt that repeats one this node already issued for the same command
+   and range is a replay from the retained-command cache, not a new acknowledgement, and is not judged.
+     code 2 (C04-K1)  when, for EVERY such newer install, the installing node's log was EMPTY at install
+                      time (Installed.LEO = 0: no barrier is written, the proof of authority is deferred
+                      into the first business proposal) and, just before the Receipt, entries of authority B
+                      (its barrier or a business proposal) were held by fewer than WriteQuorum voters;
+     code 1           otherwise — with a non-empty log the barrier and quorum intersection must exclude it. *)
+
+Record c04_install := C04Install { ci_auth : authid; ci_node : N; ci_empty : bool }.
+Record c04_cluster := C04Cluster { cc_installs : list c04_install; cc_issued : list (N * tag * N * N) }.
+
+Definition has_authority (tab : list ent) (o : robs) (b : authid) : bool :=
+  existsb (fun id => match tab_get tab id with
+                     | Some e => (en_e e =? aid_e b) && (en_t e =? aid_t b) && (en_f e =? aid_f b)
+                     | None => false
+                     end) (ro_ids o).
+
+Definition authority_on_quorum (cfg : qconfig) (tab : list ent) (full : list (N * robs)) (b : authid) : bool :=
+  cf_quorum cfg <=? lenN (filter (fun v => has_authority tab (get_robs full v) b) (voters_of cfg)).
+
+Definition issued_eqb (x y : N * tag * N * N) : bool :=
+  let '(v, c, f, l) := x in let '(v', c', f', l') := y in
+  (v =? v') && tag_eqb c c' && (f =? f') && (l =? l').
+
+Definition c04_cluster_step (cfg : qconfig) (tab : list ent) (st : c04_cluster) (prev : list (N * robs))
+           (s : qop * qres * list (N * robs)) : c04_cluster * N :=
+  let '(op, res, full) := s in
+  match op, res with
+  | OInstall node aid _ _ _, RInstalled _ leo _ =>
+      (C04Cluster (C04Install aid node (leo =? 0) :: cc_installs st) (cc_issued st), 0)
+  | OCommit node _ _ _ _ _, RReceipt a c first last _ =>
+      let this := (node, c, first, last) in
+      if existsb (issued_eqb this) (cc_issued st) then (st, 0)
+      else
+        let newer := filter (fun i => authid_ltb a (ci_auth i) && negb (ci_node i =? node)) (cc_installs st) in
+        let code :=
+          match newer with
+          | [] => 0
+          | _ => if forallb (fun i => ci_empty i && negb (authority_on_quorum cfg tab prev (ci_auth i))) newer
+                 then 2 else 1
+          end in
+        (C04Cluster (cc_installs st) (this :: cc_issued st), code)
+  | _, _ => (st, 0)
+  end.
+
+Definition worse04 (a b : N) : N :=
+  if (a =? 1) || (b =? 1) then 1 else if (a =? 0) then b else a.
+
+Fixpoint c04_cluster_run (cfg : qconfig) (tab : list ent) (st : c04_cluster) (prev : list (N * robs))
+         (steps : list (qop * qres * list (N * robs))) : N :=
+  match steps with
+  | [] => 0
+  | s :: rest => let '(st', code) := c04_cluster_step cfg tab st prev s in
+                 worse04 code (c04_cluster_run cfg tab st' (snd s) rest)
+  end.
+
+Definition c04_cluster_code (c : qcase) : N :=
+  c04_cluster_run (cs_cfg c) (cs_tab c) (C04Cluster [] []) [] (expand_steps [] (cs_steps c)).
+
 Definition C04_mismatch : qcase -> bool := q_mismatch.
+(* owner-local clauses (code 1 when broken), then the cluster-wide clause *)
 Definition C04_monitor (c : qcase) : N :=
-  if c04_holds (map (fun s => (fst s, ob_res (snd s))) (cs_steps c)) then 0 else 1.
+  if c04_holds (map (fun s => (fst s, ob_res (snd s))) (cs_steps c)) then c04_cluster_code c else 1.
